@@ -1,0 +1,384 @@
+//! Verification seam. Compiled only with `--cfg o2o_verif`; with the flag off this file is
+//! not part of the crate and `validate.rs` / `expand.rs` / `attr.rs` use
+//! `std::collections::{HashMap, HashSet}` exactly as before.
+//!
+//! With the flag on, the `HashMap` / `HashSet` names in those three files resolve to the
+//! thin wrappers below. They hold a real `std::collections::HashMap<K, V, SimState>`
+//! (everything except iteration goes straight to it through `Deref`), but
+//!
+//! * the hasher seed of every container comes from a thread-local stream that the
+//!   simulation harness sets with [`set_stream`] instead of from OS entropy, and
+//! * every *iteration* is routed through [`deliver`], which applies the order policy the
+//!   harness selected and records a probe `(call site, len, order signature)`.
+//!
+//! Nothing here changes which elements a container holds.
+
+use std::borrow::Borrow;
+use std::cell::RefCell;
+use std::hash::{BuildHasher, Hash, Hasher};
+use std::ops::{Deref, DerefMut};
+use std::panic::Location;
+
+/// Iteration order policy.
+#[derive(Clone, Copy, PartialEq, Eq, Debug)]
+pub enum Policy {
+    /// the order the seeded table yields
+    Natural = 0,
+    /// `Natural` reversed: differs from `Natural` for every container with >= 2 entries
+    Reversed = 1,
+    /// `Natural` rotated left by one
+    Rotated = 2,
+    /// ascending by a seed-independent hash of the key
+    SortedAsc = 3,
+    /// descending by a seed-independent hash of the key
+    SortedDesc = 4,
+}
+
+impl Policy {
+    pub fn from_u8(x: u8) -> Policy {
+        match x % 5 {
+            0 => Policy::Natural,
+            1 => Policy::Reversed,
+            2 => Policy::Rotated,
+            3 => Policy::SortedAsc,
+            _ => Policy::SortedDesc,
+        }
+    }
+}
+
+/// One observed iteration of an unordered container.
+#[derive(Clone, Debug)]
+pub struct Probe {
+    pub file: &'static str,
+    pub line: u32,
+    pub op: &'static str,
+    pub len: usize,
+    /// hash of the sequence of (seed-independent) key hashes, in delivered order
+    pub order_sig: u64,
+    /// the same for the keys sorted by their hash: `order_sig != canon_sig` <=> not in canonical order
+    pub canon_sig: u64,
+}
+
+struct Stream {
+    seed: u64,
+    counter: u64,
+    policy: Policy,
+    probes: Vec<Probe>,
+    containers: u64,
+}
+
+thread_local! {
+    static STREAM: RefCell<Stream> = RefCell::new(Stream { seed: 0, counter: 0, policy: Policy::Natural, probes: Vec::new(), containers: 0 });
+}
+
+/// Start a fresh seed stream and order policy on the calling thread; clears recorded probes.
+pub fn set_stream(seed: u64, policy: Policy) {
+    STREAM.with(|s| {
+        let mut s = s.borrow_mut();
+        s.seed = seed;
+        s.counter = 0;
+        s.policy = policy;
+        s.probes.clear();
+        s.containers = 0;
+    })
+}
+
+/// Probes recorded on the calling thread since the last [`set_stream`], and the number of
+/// containers created.
+pub fn take_probes() -> (Vec<Probe>, u64) {
+    STREAM.with(|s| {
+        let mut s = s.borrow_mut();
+        (std::mem::take(&mut s.probes), s.containers)
+    })
+}
+
+fn mix(mut x: u64) -> u64 {
+    x = x.wrapping_add(0x9E37_79B9_7F4A_7C15);
+    x = (x ^ (x >> 30)).wrapping_mul(0xBF58_476D_1CE4_E5B9);
+    x = (x ^ (x >> 27)).wrapping_mul(0x94D0_49BB_1331_11EB);
+    x ^ (x >> 31)
+}
+
+fn next_seed() -> u64 {
+    STREAM.with(|s| {
+        let mut s = s.borrow_mut();
+        s.counter += 1;
+        s.containers += 1;
+        mix(s.seed ^ mix(s.counter))
+    })
+}
+
+/// Seeded `BuildHasher`; `Default` draws the next seed of the thread's stream (std's
+/// `RandomState` likewise gives every container its own key).
+#[derive(Clone)]
+pub struct SimState {
+    k: u64,
+}
+
+impl Default for SimState {
+    fn default() -> Self {
+        SimState { k: next_seed() }
+    }
+}
+
+impl BuildHasher for SimState {
+    type Hasher = SimHasher;
+    fn build_hasher(&self) -> SimHasher {
+        SimHasher { h: self.k }
+    }
+}
+
+pub struct SimHasher {
+    h: u64,
+}
+
+impl Hasher for SimHasher {
+    fn finish(&self) -> u64 {
+        mix(self.h)
+    }
+    fn write(&mut self, bytes: &[u8]) {
+        for b in bytes {
+            self.h = (self.h.rotate_left(5) ^ (*b as u64)).wrapping_mul(0x517C_C1B7_2722_0A95);
+        }
+    }
+}
+
+fn fixed_hash<T: Hash + ?Sized>(t: &T) -> u64 {
+    let mut h = SimHasher { h: 0x6F32_6F5F_7665_7269 };
+    t.hash(&mut h);
+    h.finish()
+}
+
+fn seq_sig(hs: &[u64]) -> u64 {
+    let mut a = 0xCBF2_9CE4_8422_2325u64;
+    for h in hs {
+        a = mix(a ^ *h);
+    }
+    a
+}
+
+/// Apply the thread's order policy to `items` (given in the table's natural order) and
+/// record a probe. `key_hash` must be a seed-independent hash of the element's key.
+fn deliver<T>(mut items: Vec<T>, loc: &'static Location<'static>, op: &'static str, key_hash: impl Fn(&T) -> u64) -> Vec<T> {
+    STREAM.with(|s| {
+        let mut s = s.borrow_mut();
+        match s.policy {
+            Policy::Natural => {},
+            Policy::Reversed => items.reverse(),
+            Policy::Rotated => {
+                if items.len() > 1 {
+                    items.rotate_left(1)
+                }
+            },
+            Policy::SortedAsc => items.sort_by_key(|x| key_hash(x)),
+            Policy::SortedDesc => {
+                items.sort_by_key(|x| key_hash(x));
+                items.reverse()
+            },
+        }
+        let hs: Vec<u64> = items.iter().map(|x| key_hash(x)).collect();
+        let mut sorted = hs.clone();
+        sorted.sort();
+        s.probes.push(Probe { file: loc.file(), line: loc.line(), op, len: items.len(), order_sig: seq_sig(&hs), canon_sig: seq_sig(&sorted) });
+    });
+    items
+}
+
+// ---------------------------------------------------------------- HashMap
+
+pub struct HashMap<K, V>(std::collections::HashMap<K, V, SimState>);
+
+impl<K, V> HashMap<K, V> {
+    pub fn new() -> Self {
+        HashMap(std::collections::HashMap::with_hasher(SimState::default()))
+    }
+}
+
+impl<K, V> Default for HashMap<K, V> {
+    fn default() -> Self {
+        Self::new()
+    }
+}
+
+impl<K, V> Deref for HashMap<K, V> {
+    type Target = std::collections::HashMap<K, V, SimState>;
+    fn deref(&self) -> &Self::Target {
+        &self.0
+    }
+}
+
+impl<K, V> DerefMut for HashMap<K, V> {
+    fn deref_mut(&mut self) -> &mut Self::Target {
+        &mut self.0
+    }
+}
+
+impl<K: Hash + Eq, V> HashMap<K, V> {
+    // inherent (not via `DerefMut`) so that `m.insert(k, m.len())` keeps compiling: two-phase
+    // borrows apply to the auto-ref of a method call, not to an explicit `deref_mut`
+    pub fn insert(&mut self, k: K, v: V) -> Option<V> {
+        self.0.insert(k, v)
+    }
+
+    #[track_caller]
+    pub fn iter(&self) -> std::vec::IntoIter<(&K, &V)> {
+        deliver(self.0.iter().collect(), Location::caller(), "iter", |(k, _)| fixed_hash(*k)).into_iter()
+    }
+
+    #[track_caller]
+    pub fn iter_mut(&mut self) -> std::vec::IntoIter<(&K, &mut V)> {
+        deliver(self.0.iter_mut().collect(), Location::caller(), "iter_mut", |(k, _)| fixed_hash(*k)).into_iter()
+    }
+
+    #[track_caller]
+    pub fn keys(&self) -> std::vec::IntoIter<&K> {
+        deliver(self.0.keys().collect(), Location::caller(), "keys", |k| fixed_hash(*k)).into_iter()
+    }
+
+    #[track_caller]
+    pub fn values(&self) -> std::vec::IntoIter<&V> {
+        let v: Vec<(&K, &V)> = deliver(self.0.iter().collect(), Location::caller(), "values", |(k, _)| fixed_hash(*k));
+        v.into_iter().map(|(_, v)| v).collect::<Vec<_>>().into_iter()
+    }
+
+    #[track_caller]
+    pub fn into_keys(self) -> std::vec::IntoIter<K> {
+        deliver(self.0.into_keys().collect(), Location::caller(), "into_keys", |k| fixed_hash(k)).into_iter()
+    }
+
+    #[track_caller]
+    pub fn into_values(self) -> std::vec::IntoIter<V> {
+        let v: Vec<(K, V)> = deliver(self.0.into_iter().collect(), Location::caller(), "into_values", |(k, _)| fixed_hash(k));
+        v.into_iter().map(|(_, v)| v).collect::<Vec<_>>().into_iter()
+    }
+
+    #[track_caller]
+    pub fn drain(&mut self) -> std::vec::IntoIter<(K, V)> {
+        deliver(self.0.drain().collect(), Location::caller(), "drain", |(k, _)| fixed_hash(k)).into_iter()
+    }
+}
+
+impl<K: Hash + Eq, V> IntoIterator for HashMap<K, V> {
+    type Item = (K, V);
+    type IntoIter = std::vec::IntoIter<(K, V)>;
+    #[track_caller]
+    fn into_iter(self) -> Self::IntoIter {
+        deliver(self.0.into_iter().collect(), Location::caller(), "into_iter", |(k, _)| fixed_hash(k)).into_iter()
+    }
+}
+
+impl<'a, K: Hash + Eq, V> IntoIterator for &'a HashMap<K, V> {
+    type Item = (&'a K, &'a V);
+    type IntoIter = std::vec::IntoIter<(&'a K, &'a V)>;
+    #[track_caller]
+    fn into_iter(self) -> Self::IntoIter {
+        deliver(self.0.iter().collect(), Location::caller(), "ref_into_iter", |(k, _)| fixed_hash(*k)).into_iter()
+    }
+}
+
+impl<'a, K: Hash + Eq, V> IntoIterator for &'a mut HashMap<K, V> {
+    type Item = (&'a K, &'a mut V);
+    type IntoIter = std::vec::IntoIter<(&'a K, &'a mut V)>;
+    #[track_caller]
+    fn into_iter(self) -> Self::IntoIter {
+        deliver(self.0.iter_mut().collect(), Location::caller(), "mut_into_iter", |(k, _)| fixed_hash(*k)).into_iter()
+    }
+}
+
+impl<K: Hash + Eq, V> FromIterator<(K, V)> for HashMap<K, V> {
+    fn from_iter<I: IntoIterator<Item = (K, V)>>(iter: I) -> Self {
+        let mut m = HashMap::new();
+        m.0.extend(iter);
+        m
+    }
+}
+
+impl<K: Hash + Eq, V> Extend<(K, V)> for HashMap<K, V> {
+    fn extend<I: IntoIterator<Item = (K, V)>>(&mut self, iter: I) {
+        self.0.extend(iter)
+    }
+}
+
+impl<K: Hash + Eq + Borrow<Q>, Q: Hash + Eq + ?Sized, V> std::ops::Index<&Q> for HashMap<K, V> {
+    type Output = V;
+    fn index(&self, key: &Q) -> &V {
+        self.0.get(key).expect("no entry found for key")
+    }
+}
+
+// ---------------------------------------------------------------- HashSet
+
+pub struct HashSet<T>(std::collections::HashSet<T, SimState>);
+
+impl<T> HashSet<T> {
+    pub fn new() -> Self {
+        HashSet(std::collections::HashSet::with_hasher(SimState::default()))
+    }
+}
+
+impl<T> Default for HashSet<T> {
+    fn default() -> Self {
+        Self::new()
+    }
+}
+
+impl<T> Deref for HashSet<T> {
+    type Target = std::collections::HashSet<T, SimState>;
+    fn deref(&self) -> &Self::Target {
+        &self.0
+    }
+}
+
+impl<T> DerefMut for HashSet<T> {
+    fn deref_mut(&mut self) -> &mut Self::Target {
+        &mut self.0
+    }
+}
+
+impl<T: Hash + Eq> HashSet<T> {
+    pub fn insert(&mut self, t: T) -> bool {
+        self.0.insert(t)
+    }
+
+    #[track_caller]
+    pub fn iter(&self) -> std::vec::IntoIter<&T> {
+        deliver(self.0.iter().collect(), Location::caller(), "iter", |k| fixed_hash(*k)).into_iter()
+    }
+
+    #[track_caller]
+    pub fn drain(&mut self) -> std::vec::IntoIter<T> {
+        deliver(self.0.drain().collect(), Location::caller(), "drain", |k| fixed_hash(k)).into_iter()
+    }
+}
+
+impl<T: Hash + Eq> IntoIterator for HashSet<T> {
+    type Item = T;
+    type IntoIter = std::vec::IntoIter<T>;
+    #[track_caller]
+    fn into_iter(self) -> Self::IntoIter {
+        deliver(self.0.into_iter().collect(), Location::caller(), "into_iter", |k| fixed_hash(k)).into_iter()
+    }
+}
+
+impl<'a, T: Hash + Eq> IntoIterator for &'a HashSet<T> {
+    type Item = &'a T;
+    type IntoIter = std::vec::IntoIter<&'a T>;
+    #[track_caller]
+    fn into_iter(self) -> Self::IntoIter {
+        deliver(self.0.iter().collect(), Location::caller(), "ref_into_iter", |k| fixed_hash(*k)).into_iter()
+    }
+}
+
+impl<T: Hash + Eq> FromIterator<T> for HashSet<T> {
+    fn from_iter<I: IntoIterator<Item = T>>(iter: I) -> Self {
+        let mut s = HashSet::new();
+        s.0.extend(iter);
+        s
+    }
+}
+
+impl<T: Hash + Eq> Extend<T> for HashSet<T> {
+    fn extend<I: IntoIterator<Item = T>>(&mut self, iter: I) {
+        self.0.extend(iter)
+    }
+}
